@@ -27,7 +27,7 @@ KINDS = ["Dist", "Static", "Vmap", "Repeat", "Scan", "Accumulate", "Reduce", "It
 
 def cfg_fn(rng, ctx):
     depth = int(rng.choice([1, 2, 2])) if ctx.quick() else int(rng.choice([1, 2, 2, 3]))
-    return gen.Cfg(depth=depth, kinds=KINDS, tuple_addr=0.4)
+    return gen.Cfg(depth=depth, kinds=KINDS, tuple_addr=0.4, hostile_idx=rng.random() < 0.4)
 
 
 OFF_SUPPORT = {"uniform": 5.0, "exponential": -1.0, "gamma": -1.0, "beta": 2.0}
